@@ -13,6 +13,7 @@
 #include <termios.h>
 #include <fcntl.h>
 #include <algorithm>
+#include <execinfo.h>
 
 extern "C" void sim_baton_wait(volatile int *w);
 extern "C" void sim_baton_post(volatile int *w);
@@ -404,7 +405,10 @@ ApiScope::~ApiScope() {
 }
 
 // ------------------------------------------------------------------ heap attribution (ASan builds)
-struct LiveEnt { uintptr_t p; size_t n; };
+struct LiveEnt { uintptr_t p; size_t n; uint64_t seq; };
+static bool g_leakdbg = false;
+static void *(*g_live_bt)[8] = nullptr;
+static __thread int g_in_bt = 0;
 static const size_t LIVE_CAP = 1u << 18;
 static LiveEnt *g_live = nullptr;
 static int64_t g_live_bytes = 0, g_live_blocks = 0;
@@ -418,7 +422,11 @@ static void malloc_hook(const volatile void *ptr, size_t n) {
 	size_t h = live_hash(p);
 	for (size_t k = 0; k < LIVE_CAP; k++) {
 		LiveEnt &e = g_live[(h + k) & (LIVE_CAP - 1)];
-		if (e.p == 0 || e.p == 1) { e.p = p; e.n = n; g_live_bytes += (int64_t) n; g_live_blocks++; g_total_allocs++; return; }
+		if (e.p == 0 || e.p == 1) {
+			e.p = p; e.n = n; e.seq = ++g_total_allocs; g_live_bytes += (int64_t) n; g_live_blocks++;
+			if (g_leakdbg && g_live_bt && !g_in_bt) { g_in_bt = 1; size_t ix = (h + k) & (LIVE_CAP - 1); memset(g_live_bt[ix], 0, sizeof g_live_bt[ix]); backtrace(g_live_bt[ix], 8); g_in_bt = 0; }
+			return;
+		}
 	}
 }
 static void free_hook(const volatile void *ptr) {
@@ -434,10 +442,21 @@ static void free_hook(const volatile void *ptr) {
 int64_t lib_live_bytes() { return g_live_bytes; }
 int64_t lib_live_blocks() { return g_live_blocks; }
 uint64_t lib_total_allocs() { return g_total_allocs; }
+void dump_live_since(uint64_t seq_marker) {
+	if (!g_live) return;
+	for (size_t i = 0; i < LIVE_CAP; i++) {
+		LiveEnt &e = g_live[i];
+		if (e.p <= 1 || e.seq <= seq_marker) continue;
+		fprintf(stderr, "[live] %zu bytes seq=%llu:", e.n, (unsigned long long) e.seq);
+		if (g_live_bt) for (int k = 2; k < 8 && g_live_bt[i][k]; k++) fprintf(stderr, " %s", sym(g_live_bt[i][k]).c_str());
+		fprintf(stderr, "\n");
+	}
+}
 
 __attribute__((constructor)) static void sim_ctor() {
 	if (__sanitizer_install_malloc_and_free_hooks) {
 		g_live = (LiveEnt *) calloc(LIVE_CAP, sizeof(LiveEnt));
+		if (getenv("VERIF_LEAKDBG")) { g_leakdbg = true; g_live_bt = (void *(*)[8]) calloc(LIVE_CAP, sizeof(void *[8])); void *tmp[4]; backtrace(tmp, 4); }
 		__sanitizer_install_malloc_and_free_hooks(malloc_hook, free_hook);
 	}
 }
@@ -701,6 +720,7 @@ int __wrap_pthread_rwlock_unlock(pthread_rwlock_t *rw) {
 
 // ---- threads
 int __wrap_pthread_create(pthread_t *th, const pthread_attr_t *attr, void *(*fn)(void *), void *arg) {
+	SimScope simscope_;
 	if (!active()) return pthread_create(th, attr, fn, arg);
 	(void) attr;
 	Task *t = new_task("lib:" + sym((void *) fn));
